@@ -221,15 +221,16 @@ func runSQLCol(c *core.Ctx) {
 		return
 	}
 	fields := an.StructLitFields(lit)
-	for _, call := range callsNamed(fn, "(*database/sql.Stmt).ExecContext") {
-		q, ok := stmtQuery(call.Call.Args[0], begin)
+	for _, o := range an.RegionCalls(fn, nil, "(*database/sql.Stmt).ExecContext") {
+		call := o.In.(*ssa.Call)
+		q, ok := stmtQuery(o.Resolve(call.Call.Args[0]), begin)
 		if !ok {
 			continue
 		}
 		table, cols := insertColumns(q)
 		c.CountSites(1)
 		// which field of the params struct feeds this Exec
-		ap := an.PathOf(call.Call.Args[2])
+		ap := o.Path(call.Call.Args[2])
 		field := ""
 		for f := range fields {
 			if strings.Contains(ap, "."+f) {
@@ -750,19 +751,23 @@ func runSQLCond(c *core.Ctx) {
 		pos      string
 	}
 	var ins []in
-	for _, ci := range calls(build) {
+	an.Region(build, nil, func(o an.Occ) {
+		ci, isCI := o.In.(ssa.CallInstruction)
+		if !isCI {
+			return
+		}
 		com := ci.Common()
 		if !com.IsInvoke() || com.Method.Name() != "In" || len(com.Args) != 1 {
-			continue
+			return
 		}
-		_, col := sqlCol(an.PathOf(com.Value))
+		_, col := sqlCol(o.Path(com.Value))
 		elems, _ := an.VariadicElems(com.Args[0])
-		arg := an.PathOf(com.Args[0])
+		arg := o.Path(com.Args[0])
 		if len(elems) == 1 {
-			arg = an.PathOf(elems[0])
+			arg = o.Path(elems[0])
 		}
-		ins = append(ins, in{col, arg, ci.Block(), P.Pos(ci.Pos())})
-	}
+		ins = append(ins, in{col, arg, o.Block(), P.Pos(o.Site().Pos())})
+	})
 	c.CountSites(len(ins))
 	for _, row := range []struct{ field, col, via string }{
 		{"IDs", "id", "encoding/hex.DecodeString("},
